@@ -17,6 +17,13 @@ pub struct MutexGuard<'a, T: ?Sized> {
     data: Option<std::sync::MutexGuard<'a, T>>,
 }
 
+/// The `std` mutex only stores the data. Its poison flag means nothing here:
+/// all loom threads run on one OS thread, so a guard that is dropped while
+/// *another* loom thread unwinds would count as dropped during a panic.
+fn ignore_poison<G>(result: LockResult<G>) -> G {
+    result.unwrap_or_else(|poisoned| poisoned.into_inner())
+}
+
 impl<T> Mutex<T> {
     /// Creates a new mutex in an unlocked state ready for use.
     pub fn new(data: T) -> Mutex<T> {
@@ -28,7 +35,7 @@ impl<T> Mutex<T> {
 
     /// Consumes this mutex, returning the underlying data.
     pub fn into_inner(self) -> LockResult<T> {
-        Ok(self.data.into_inner().unwrap())
+        Ok(ignore_poison(self.data.into_inner()))
     }
 }
 
@@ -40,7 +47,7 @@ impl<T: ?Sized> Mutex<T> {
 
         Ok(MutexGuard {
             lock: self,
-            data: Some(self.data.lock().unwrap()),
+            data: Some(ignore_poison(self.data.lock())),
         })
     }
 
@@ -56,7 +63,7 @@ impl<T: ?Sized> Mutex<T> {
         if self.object.try_acquire_lock(location!()) {
             Ok(MutexGuard {
                 lock: self,
-                data: Some(self.data.lock().unwrap()),
+                data: Some(ignore_poison(self.data.lock())),
             })
         } else {
             Err(TryLockError::WouldBlock)
@@ -65,7 +72,7 @@ impl<T: ?Sized> Mutex<T> {
 
     /// Returns a mutable reference to the underlying data.
     pub fn get_mut(&mut self) -> LockResult<&mut T> {
-        Ok(self.data.get_mut().unwrap())
+        Ok(ignore_poison(self.data.get_mut()))
     }
 }
 
@@ -90,7 +97,7 @@ impl<'a, T: ?Sized + 'a> MutexGuard<'a, T> {
     }
 
     pub(super) fn reborrow(&mut self) {
-        self.data = Some(self.lock.data.lock().unwrap());
+        self.data = Some(ignore_poison(self.lock.data.lock()));
     }
 
     pub(super) fn rt(&self) -> &rt::Mutex {
